@@ -46,7 +46,9 @@ const RUNTIME_ITEMS: [(&'static str, &'static str); 4] = [
     ("Y", "function(a){return a==null?'':String(a)}"),
     (
         "Z",
-        "function(a,b){if(a===true)return true;if(a)return a[b]}",
+        // (the tree of a spliced array is an object whose prototype is an array: items have moved,
+        // so every member below it has to be considered as changed)
+        "function(a,b){if(a===true)return true;if(a)return Array.isArray(Object.getPrototypeOf(a))?true:a[b]}",
     ),
     ("P", "function(a){return typeof a==='function'?a:()=>{}}"),
 ];
